@@ -1712,6 +1712,61 @@ impl<T: PartialEq> Invalidates for Addr<T> {
     }
 }
 
+/// Plain-data copy of Foca's internal state, for external verification
+/// tooling. Only available with the `verif-hooks` feature.
+#[cfg(feature = "verif-hooks")]
+#[derive(Debug, Clone, PartialEq, Eq)]
+#[allow(missing_docs)]
+pub struct VerifSnapshot<T> {
+    pub timer_token: TimerToken,
+    /// 0 = disconnected, 1 = connected, 2 = undead
+    pub connection_state: u8,
+    pub incarnation: Incarnation,
+    pub probe_target: Option<Member<T>>,
+    pub probe_number: ProbeNumber,
+    pub probe_direct_ack_ok: bool,
+    pub probe_indirect_expected: Vec<T>,
+    pub probe_indirect_acks: usize,
+    pub probe_reached_indirect_stage: bool,
+    /// (remaining transmissions, encoded bytes), unordered
+    pub updates_backlog: Vec<(usize, Vec<u8>)>,
+    /// (remaining transmissions, item bytes), unordered
+    pub custom_backlog: Vec<(usize, Vec<u8>)>,
+    pub members_order: Vec<Member<T>>,
+    pub members_cursor: usize,
+}
+
+#[cfg(feature = "verif-hooks")]
+impl<T, C, RNG, B> Foca<T, C, RNG, B>
+where
+    T: Identity,
+    B: BroadcastHandler<T>,
+{
+    /// Read-only snapshot of the internal state. Has no side effects.
+    pub fn verif_snapshot(&self) -> VerifSnapshot<T> {
+        let (target, expected, number, direct_ok, acks, reached) = self.probe.verif_state();
+        VerifSnapshot {
+            timer_token: self.timer_token,
+            connection_state: match self.connection_state {
+                ConnectionState::Disconnected => 0,
+                ConnectionState::Connected => 1,
+                ConnectionState::Undead => 2,
+            },
+            incarnation: self.incarnation,
+            probe_target: target,
+            probe_number: number,
+            probe_direct_ack_ok: direct_ok,
+            probe_indirect_expected: expected,
+            probe_indirect_acks: acks,
+            probe_reached_indirect_stage: reached,
+            updates_backlog: self.updates.verif_entries(),
+            custom_backlog: self.custom_broadcasts.verif_entries(),
+            members_order: self.members.inner.clone(),
+            members_cursor: self.members.verif_cursor(),
+        }
+    }
+}
+
 #[cfg(test)]
 impl<T, C, RNG, B> Foca<T, C, RNG, B>
 where
